@@ -30,18 +30,23 @@ import (
 	"github.com/dolthub/dolt/go/zzverif/vt"
 )
 
-const c12MapRule = "a target content (0..24000 entries; row-shaped maps with 1-2 key fields and 1-3 nullable value fields, secondary-index-shaped maps with 2-3 key fields, nullable suffix fields and empty values, maps with a few 2-60 KB values, or (one in six) wide-row maps of 300-900 rows padded to 120-850 bytes so that a leaf holds 6-15 rows, whose first history is always the merge route with 10-60 boundary-biased edits) (one target in six cut right after a leaf boundary) is built in bulk, must have a canonical root (leaf, or internal with >= 2 children), and is reached again by 2-3 drawn histories: bulk build of a different content (empty, subset, superset, mixed edits incl. edits at leaf boundaries, or an unrelated map of another height) followed by the net edits toward the target through MutableMap (maxPending in {1,2,7,64,default}, sorted or strided order, drawn flush batch) or MutateMapWithTupleIter (one or several sorted streams); the same start tree reached by mutating the target tree; and prolly.MergeMaps of two sides that split the changes between a base and the target (disjoint or identical on both sides). All must have the bulk tree's root hash, height and count; the bulk tree's content is read back and compared with the target. Non-trivial: target height>=2 and at least one history whose start tree has a different set of leaf-boundary keys than the target (a chunk boundary was created, removed or moved) or a different height; distinct by hash of (schema, size, target ops, history descriptions)."
+const c12MapRule = "a target content (0..24000 entries; row-shaped maps with 1-2 key fields and 1-3 nullable value fields, secondary-index-shaped maps with 2-3 key fields, nullable suffix fields and empty values, maps with a few 2-60 KB values, or (one in six) wide-row maps of 300-900 rows padded to 120-850 bytes so that a leaf holds 6-15 rows, whose first history is always the merge route with 10-60 boundary-biased edits, or (one in thirteen) tall maps: a full map of 2600-4500 wide rows (three tree levels) cut at a drawn point plus rows appended past its end, first reached by merging the full map with one side truncating and the other appending) (one target in six cut right after a leaf boundary) is built in bulk, must have a canonical root (leaf, or internal with >= 2 children), and is reached again by 2-3 drawn histories: bulk build of a different content (empty, subset, superset, mixed edits incl. edits at leaf boundaries, or an unrelated map of another height) followed by the net edits toward the target through MutableMap (maxPending in {1,2,7,64,default}, sorted or strided order, drawn flush batch) or MutateMapWithTupleIter (one or several sorted streams); the same start tree reached by mutating the target tree; and prolly.MergeMaps of two sides that split the changes between a base and the target (disjoint or identical on both sides). All must have the bulk tree's root hash, height and count; the bulk tree's content is read back and compared with the target. Non-trivial: target height>=2 and at least one history whose start tree has a different set of leaf-boundary keys than the target (a chunk boundary was created, removed or moved) or a different height; distinct by hash of (schema, size, target ops, history descriptions)."
 
 const (
 	c12FlavorRows  = "rows"
 	c12FlavorIndex = "index"
 	c12FlavorBig   = "bigval"
 	c12FlavorWide  = "wide"
+	c12FlavorTall  = "tall"
 )
 
 func c12GenSchemas(t *rapid.T) (string, vt.Schema, vt.Schema) {
-	f := rapid.IntRange(0, 11).Draw(t, "flavor")
+	f := rapid.IntRange(0, 12).Draw(t, "flavor")
 	switch {
+	case f == 12:
+		// tall: wide rows and enough of them for three tree levels; the target is a truncated map
+		// plus rows appended behind it, and its first history is the merge that produces exactly that
+		return c12FlavorTall, vt.GenSchema(t, "key", 1, 2, false), c12WideSchema()
 	case f >= 10:
 		// wide rows: 6-15 rows per leaf, so edits keep landing on chunk ends
 		return c12FlavorWide, vt.GenSchema(t, "key", 1, 2, false), c12WideSchema()
@@ -93,6 +98,8 @@ type c12MapCaseState struct {
 	descs    []string
 	boundary bool
 	excluded int
+	tallS    *vt.Dict // tall flavour: the full map the target was cut from (merge base)
+	tallCut  int
 }
 
 func (s *c12MapCaseState) class(c string) { s.classes[c] = true }
@@ -359,13 +366,86 @@ func (s *c12MapCaseState) mergeHistory(t *rapid.T, label string) {
 	s.compare(t, who, merged)
 }
 
+// tallMergeHistory reaches the tall target by a merge over the full map S: one side truncates S
+// at the cut (in one piece, or the other side deletes a part of the tail too), the other side
+// appends the rows that follow S's end; sides and the way they are built are drawn.
+func (s *c12MapCaseState) tallMergeHistory(t *rapid.T, label string) {
+	w := s.w
+	B := s.tallS
+	base, err := w.bulk(B)
+	if err != nil {
+		t.Fatalf("%s: bulk build of the full map: %v", label, err)
+	}
+	s.noteStart(base, B)
+	ch := c12ModelDiff(B, s.T) // deletes of S[cut:] then the appended rows
+	mirrored := rapid.IntRange(0, 3).Draw(t, label+".truncateOnLeft") == 3
+	shareFrom := B.Len() // keys from this ordinal on are deleted by both sides
+	if rapid.IntRange(0, 2).Draw(t, label+".bothTruncate") == 2 {
+		shareFrom = s.tallCut + rapid.IntRange(0, B.Len()-s.tallCut).Draw(t, label+".shareFrom")
+	}
+	var te, ae []c12Edit // truncating side, appending side
+	for _, c := range ch {
+		e := c12Edit{K: c.K, V: c.To, Del: !c.HasTo}
+		if e.Del {
+			te = append(te, e)
+			if i, _ := B.Search(c.K); i >= shareFrom {
+				ae = append(ae, e)
+			}
+		} else {
+			ae = append(ae, e)
+		}
+	}
+	le, re := ae, te
+	if mirrored {
+		le, re = te, ae
+	}
+	viaMut := rapid.Bool().Draw(t, label+".sidesByMutation")
+	mk := func(es []c12Edit) (prolly.Map, error) {
+		if viaMut {
+			return w.applyMut(base, es, 0, 0)
+		}
+		d := B.Clone()
+		c12ApplyModel(d, es)
+		return w.bulk(d)
+	}
+	lt, err := mk(le)
+	if err != nil {
+		t.Fatalf("%s: left side: %v", label, err)
+	}
+	rt, err := mk(re)
+	if err != nil {
+		t.Fatalf("%s: right side: %v", label, err)
+	}
+	who := fmt.Sprintf("%s: tall merge over the full map (%d rows, height %d): truncate at #%d on %s, append on the other side, both delete from #%d, sidesByMutation=%v",
+		label, B.Len(), base.Height(), s.tallCut, map[bool]string{true: "left", false: "right"}[mirrored], shareFrom, viaMut)
+	var collided []string
+	merged, _, err := prolly.MergeMaps(w.ctx, lt, rt, base, func(l, r tree.Diff) (tree.Diff, bool) {
+		collided = append(collided, w.ks.Decode(val.Tuple(l.Key)).String())
+		return tree.Diff{}, false
+	})
+	if err != nil {
+		t.Fatalf("%s: MergeMaps: %v", who, err)
+	}
+	if len(collided) > 0 {
+		t.Fatalf("%s: collision handler invoked for %d keys (first %s) although every key is changed on one side only or identically on both", who, len(collided), collided[0])
+	}
+	s.descs = append(s.descs, who)
+	s.class("via_merge")
+	s.class("tall_merge")
+	s.class(fmt.Sprintf("tall_base_height=%d", base.Height()))
+	s.compare(t, who, merged)
+}
+
 func c12MapCase(t *rapid.T, rec *vh.Recorder) {
 	flavor, ks, vs := c12GenSchemas(t)
 	w := c12NewWorld(ks, vs)
-	if flavor == c12FlavorWide {
+	if flavor == c12FlavorWide || flavor == c12FlavorTall {
 		w.wide = true
 		w.padLo = rapid.SampledFrom([]int{120, 300, 450}).Draw(t, "padLo")
 		w.padSpan = rapid.SampledFrom([]int{1, 60, 401}).Draw(t, "padSpan")
+		if flavor == c12FlavorTall && w.padLo < 300 {
+			w.padLo = 300
+		}
 	}
 	s := &c12MapCaseState{w: w, flavor: flavor, classes: map[string]bool{}}
 	sizeClass := rapid.IntRange(0, 19).Draw(t, "sizeClass")
@@ -388,6 +468,9 @@ func c12MapCase(t *rapid.T, rec *vh.Recorder) {
 		n = 300 + n%600
 		maxRun = rapid.SampledFrom([]int{6, 12, 40, 120}).Draw(t, "maxRun")
 	}
+	if flavor == c12FlavorTall {
+		n = rapid.IntRange(2600, 4500).Draw(t, "tallN")
+	}
 	step := 3
 	if mx := vt.MaxAt(ks.Kinds[0])/step - 20; n > mx {
 		n = mx
@@ -398,6 +481,27 @@ func c12MapCase(t *rapid.T, rec *vh.Recorder) {
 	// make the target irregular
 	nT := rapid.IntRange(0, 6).Draw(t, "targetOps")
 	s.gen.script(t, "T", s.T, nil, nT, [8]int{2, 2, 1, 2, 0, 2, 2, 0})
+	if flavor == c12FlavorTall && s.T.Len() > 100 {
+		// S = the full map (merge base); target = S cut at a drawn point + rows appended past S's end
+		s.tallS = s.T.Clone()
+		last := s.tallS.E[s.tallS.Len()-1].K
+		c := s.tallS.Len()*(3+rapid.IntRange(0, 7).Draw(t, "tallCutEighth"))/11 + rapid.IntRange(0, 40).Draw(t, "tallCutJitter")
+		if c >= s.tallS.Len() {
+			c = s.tallS.Len() - 1
+		}
+		s.tallCut = c
+		m := rapid.IntRange(1, 40).Draw(t, "tallAppend")
+		s.T = vt.FromSorted(append([]vt.Entry(nil), s.tallS.E[:c]...))
+		if p, ok := c12PosOf(ks.Kinds[0], last[0]); ok {
+			for i := 1; i <= m; i++ {
+				k := w.keyAt(p+i, 0)
+				if vt.CompareRows(k, last) > 0 {
+					s.T.Put(k, w.valAt(i))
+				}
+			}
+		}
+		s.gen.note("tall: full map of %d rows cut at #%d, %d rows appended past its end", s.tallS.Len(), c, s.T.Len()-c)
+	}
 	nbig, maxBig := 0, 0
 	if flavor == c12FlavorBig && s.T.Len() > 0 {
 		nbig = rapid.IntRange(1, 6).Draw(t, "nBig")
@@ -429,7 +533,7 @@ func c12MapCase(t *rapid.T, rec *vh.Recorder) {
 	// one target in six is cut right after a leaf boundary, so that the content ends exactly on
 	// a natural chunk boundary (the last chunk of every level is then a "full" one)
 	cut := false
-	if ib := s.shape0.innerBounds(); len(ib) > 0 && rapid.IntRange(0, 5).Draw(t, "cutAtBoundary") == 0 {
+	if ib := s.shape0.innerBounds(); len(ib) > 0 && s.tallS == nil && rapid.IntRange(0, 5).Draw(t, "cutAtBoundary") == 0 {
 		j := rapid.IntRange(0, len(ib)-1).Draw(t, "cutLeaf")
 		if rapid.Bool().Draw(t, "cutFirstLeaf") {
 			j = 0
@@ -460,6 +564,10 @@ func c12MapCase(t *rapid.T, rec *vh.Recorder) {
 	nh := rapid.IntRange(2, 3).Draw(t, "histories")
 	for i := 0; i < nh; i++ {
 		label := fmt.Sprintf("h%d", i)
+		if s.tallS != nil && i == 0 {
+			s.tallMergeHistory(t, label)
+			continue
+		}
 		// wide rows: the first history is always the merge route
 		if (w.wide && i == 0) || rapid.IntRange(0, 2).Draw(t, label+".kind") == 0 {
 			s.mergeHistory(t, label)
